@@ -98,6 +98,19 @@ AttrClass(kv) ==
   ELSE "ok"
 RangeVal(v) == LET p == IndexOf(v, 45)  a == SubSeq(v, 1, p - 1)  b == SubSeq(v, p + 1, Len(v)) IN
                <<Dur(a).v, IF b = <<>> THEN None ELSE Some(Dur(b).v)>>
+\* Last-Modified with the chrono feature: the value must parse as RFC 3339.  Certainly valid: the form MPD sends,
+\* YYYY-MM-DDTHH:MM:SS followed by Z or +-HH:MM, all fields in range (day <= 28 so that no calendar is needed);
+\* certainly invalid: the empty string; everything else is left open.  Without the feature the value is kept as it is.
+IsDig(c) == c >= 48 /\ c <= 57
+D2(v, i) == (v[i] - 48) * 10 + (v[i + 1] - 48)
+TsStrict(v) == /\ Len(v) \in {20, 25}
+               /\ \A i \in {1, 2, 3, 4, 6, 7, 9, 10, 12, 13, 15, 16, 18, 19} : IsDig(v[i])
+               /\ v[1] >= 49 /\ v[5] = 45 /\ v[8] = 45 /\ v[11] = 84 /\ v[14] = 58 /\ v[17] = 58
+               /\ D2(v, 6) \in 1..12 /\ D2(v, 9) \in 1..28 /\ D2(v, 12) \in 0..23 /\ D2(v, 15) \in 0..59 /\ D2(v, 18) \in 0..59
+               /\ IF Len(v) = 20 THEN v[20] = 90
+                  ELSE /\ v[20] \in {43, 45} /\ IsDig(v[21]) /\ IsDig(v[22]) /\ v[23] = 58 /\ IsDig(v[24]) /\ IsDig(v[25])
+                       /\ D2(v, 21) \in 0..14 /\ D2(v, 24) \in {0, 30, 45}
+TsClass(v, chrono) == IF ~chrono \/ TsStrict(v) THEN "ok" ELSE IF v = <<>> THEN "err" ELSE "any"
 LastOf(s) == s[Len(s)]
 \* the song described by attribute lines attrs (in order) after "file: url"
 SongOf(url, attrs, chrono) ==
@@ -132,10 +145,10 @@ Listing(fields, chrono) ==
            \* the legacy Time line is redundant when the song also has a duration line: an odd Time value may then be ignored
            cls == UNION {{IF songs[j][3][a][1] = K_Time /\ Count(songs[j][3], K_duration) > 0 /\ AttrClass(songs[j][3][a]) # "ok" THEN "any"
                           ELSE AttrClass(songs[j][3][a]) : a \in 1..Len(songs[j][3])} : j \in 1..Len(songs)}
-           \* with the chrono feature Last-Modified must be RFC 3339; its domain is not modelled -> any when present
-           lmAny == chrono /\ \E j \in 1..Len(songs) : Count(songs[j][3], K_LastModified) > 0
-       IN IF ~wf \/ lmAny THEN Unspec
-          ELSE IF Worst(cls) = "any" THEN Unspec ELSE IF Worst(cls) = "err" THEN Err
+           lmCls == UNION {{TsClass(songs[j][3][a][2], chrono) : a \in {x \in 1..Len(songs[j][3]) : songs[j][3][x][1] = K_LastModified}} : j \in 1..Len(songs)}
+           all == cls \cup lmCls
+       IN IF ~wf THEN Unspec
+          ELSE IF Worst(all) = "any" THEN Unspec ELSE IF Worst(all) = "err" THEN Err
           ELSE Ok([j \in 1..Len(songs) |-> SongOf(songs[j][2], songs[j][3], chrono)])
 
 \* =====================================================================================================
@@ -234,7 +247,10 @@ Pairs(fields, i, k1, k2, acc) ==
   IF i > Len(fields) THEN [c |-> "ok", v |-> acc]
   ELSE IF i + 1 > Len(fields) \/ fields[i][1] # k1 \/ fields[i + 1][1] # k2 THEN [c |-> "any", v |-> <<>>]
   ELSE Pairs(fields, i + 2, k1, k2, Append(acc, <<fields[i][2], fields[i + 1][2]>>))
-Playlists(fields, chrono) == LET r == Pairs(fields, 1, K_playlist, K_LastModified, <<>>) IN IF r.c = "any" \/ (chrono /\ fields # <<>>) THEN Unspec ELSE Ok(r.v)
+Playlists(fields, chrono) == LET r == Pairs(fields, 1, K_playlist, K_LastModified, <<>>) IN
+                             IF r.c = "any" THEN Unspec
+                             ELSE LET cl == {TsClass(r.v[j][2], chrono) : j \in 1..Len(r.v)} IN
+                                  IF "any" \in cl THEN Unspec ELSE IF "err" \in cl THEN Err ELSE Ok(r.v)
 K_channel == <<99,104,97,110,110,101,108>>  K_message == <<109,101,115,115,97,103,101>>
 Messages(fields) == LET r == Pairs(fields, 1, K_channel, K_message, <<>>) IN IF r.c = "any" THEN Unspec ELSE Ok(r.v)
 Channels(fields) == IF \E i \in 1..Len(fields) : fields[i][1] # K_channel THEN Unspec ELSE Ok(Vals(fields, K_channel))
